@@ -141,7 +141,8 @@ def same_paths(o, got, want, S, what, arc_tol=None, rel=1e-12):
 def observe(p, S):
     """what a user can measure on a path: length, points along it, bounding box (or the exception type raised)"""
     out = []
-    for f in (lambda: p.length(error=1e-4 * S, min_depth=3), lambda: lib.xy(p.point(0.3)), lambda: lib.xy(p.point(0.8)), lambda: p.bbox()):
+    # (a point is asked before the length: the two go through different cache tests)
+    for f in (lambda: lib.xy(p.point(0.3, error=1e-4 * S)), lambda: p.length(error=1e-4 * S, min_depth=3), lambda: lib.xy(p.point(0.8, error=1e-4 * S)), lambda: p.bbox()):
         try:
             out.append(f())
         except Exception as e:
@@ -210,7 +211,7 @@ def check(case):
     if case.get("observe"):
         got_obs, want_obs = observe(p, S), observe(want, S)
         if not same_observations(got_obs, want_obs, S):
-            return o.violation("append:measured-history", "the path was measured between the steps %r %r; afterwards [length, point(0.3), point(0.8), bbox] = %r, on Path(joined text) %r" % (pieces, ops, got_obs, want_obs))
+            return o.violation("append:measured-history", "the path was measured between the steps %r %r; afterwards [point(0.3), length, point(0.8), bbox] = %r, on Path(joined text) %r" % (pieces, ops, got_obs, want_obs))
     o.nontrivial = statedep
     return o.ok()
 
